@@ -182,7 +182,12 @@ class Ctx:
             elif isinstance(v, (int, float)) and not isinstance(v, bool):
                 self.extra[k] = self.extra.get(k, 0) + v
             elif isinstance(v, dict):
-                self.extra.setdefault(k, {}).update(v)
+                tgt = self.extra.setdefault(k, {})
+                for kk, vv in v.items():
+                    if isinstance(vv, (int, float)) and not isinstance(vv, bool) and isinstance(tgt.get(kk, 0), (int, float)):
+                        tgt[kk] = tgt.get(kk, 0) + vv
+                    else:
+                        tgt[kk] = vv
             else:
                 self.extra[k] = v
         self.models_used |= set(d['models_used'])
